@@ -30,6 +30,7 @@ import glom.core as gcore  # noqa: E402
 from glom import (T, S, A, Vars, Glommer, Invoke, Ref, Coalesce, Match, M, Fold, Sum, Flatten, Merge, Val, Spec, Pipe, Switch, Check, Iter, Assign, Call,  # noqa: E402
                   GlomError, Path, Or, glom as G)
 from glom.grouping import Group, First, Max, Limit  # noqa: E402
+from glom.matching import Required  # noqa: E402
 from glom.reduction import Count  # noqa: E402
 
 META = {
@@ -314,6 +315,21 @@ def programs(n_yields):
         dict(name='one-scope-dict-b', family='one-scope-dict', target=lambda: {'v': 'B-value'}, kw={'scope': _ONE_SCOPE_DICT},
              spec=lambda: chain(S(x=T['v']), A.globals.g, T) + ({'x': S.x, 'unit': S.unit, 'g': (S.globals.g, 'v')},),
              post=lambda target, o: ('keys-of-the-caller-dict', sorted(repr(k) for k in list(_ONE_SCOPE_DICT) if isinstance(k, str)))),
+        # ONE Match(.., default=..) object evaluated through glom(), .matches() and .verify() by overlapping calls: glom() honours the
+        # default, verify() raises, matches() answers - each as when run alone
+        dict(name='shared-match-default-glom', family='shared-match', target=lambda: {'v': 1, 'id': 'not-an-int'}, spec=lambda: _SHARED_MATCH['default']),
+        dict(name='shared-match-default-glom-ok', family='shared-match', target=lambda: {'v': 1, 'id': 5}, spec=lambda: _SHARED_MATCH['default']),
+        dict(name='shared-match-default-matches', family='shared-match', target=lambda: {'v': 2, 'id': 'not-an-int'}, spec=lambda: _SHARED_MATCH['default'],
+             entry=lambda target, spec, **kw: spec.matches(target)),
+        dict(name='shared-match-default-verify', family='shared-match', target=lambda: {'v': 3, 'id': None}, spec=lambda: _SHARED_MATCH['default'],
+             entry=lambda target, spec, **kw: spec.verify(target)),
+        dict(name='shared-match-default-verify-ok', family='shared-match', target=lambda: {'v': 3, 'id': 3}, spec=lambda: _SHARED_MATCH['default'],
+             entry=lambda target, spec, **kw: spec.verify(target)),
+        # ONE dict pattern with a Required key and a catch-all whose value spec yields, shared by calls whose targets have / lack that key
+        dict(name='shared-required-key-present', family='shared-required', target=lambda: {'other': 1, 'name': 'n'}, spec=lambda: _SHARED_MATCH['required']),
+        dict(name='shared-required-key-absent', family='shared-required', target=lambda: {'other': 2, 'more': 3}, spec=lambda: _SHARED_MATCH['required']),
+        dict(name='shared-required-type-key-present', family='shared-required-type', target=lambda: {1: 'x', 'name': 'n'}, spec=lambda: _SHARED_MATCH['required-type']),
+        dict(name='shared-required-type-key-absent', family='shared-required-type', target=lambda: {1: 'x', 2: 'y'}, spec=lambda: _SHARED_MATCH['required-type']),
         # container literals in ARGUMENT position whose construction is interrupted by a yield point; the spec objects are
         # shared between threads (a memo keyed by id(spec) that outlives one call would hand one call another call's value)
         dict(name='shared-arg-default', target=lambda: {'v': threading.get_ident()}, spec=lambda: _shared_arg('default', n_yields)),
@@ -347,6 +363,9 @@ def new_epoch():
     with _EPOCH_LOCK:
         _EPOCH[0] += 1
 _TWO_ROLES = {'sum': Sum((Y, T)), 'flatten': Flatten((Y, T))}
+_SHARED_MATCH = {'default': Match({'v': lambda x: Y(x) is not None, 'id': int}, default='DFLT'),
+                 'required': Match({'name': str, str: lambda x: Y(x) is not None}),
+                 'required-type': Match({Required(str): str, object: lambda x: Y(x) is not None})}
 import collections as _collections  # noqa: E402
 _LAZY_RED = {'merge': Merge(Iter(Y)), 'sum-list': Sum(Iter(Y), init=list), 'sum-counter': Sum(Iter((Y, _collections.Counter)), init=_collections.Counter),
              'flatten': Flatten(Iter(Y)), 'fold': Fold(Iter(Y), init=list, op=lambda acc, x: (acc.append(x), acc)[1])}
